@@ -82,4 +82,23 @@ PROPS = {
         assumptions=['S1 names the value returned by the spline evaluator passed in (see C07)',
                      'range of the floor-based real modulo 0 <= x % m < m for m > 0 is a trusted arithmetic fact'],
     ),
+    'C01': dict(
+        level='other',
+        contracts=[],
+        functions=[],
+        bounded=[dict(module='vf.rt.bounded_layout', prop='C01',
+                      bound='ranks 2-4, extents 2..7 (incl. n==p and uneven), process grids up to 3x2 incl. leading extent 1, '
+                            'production layout sets + seeded random sets of 2-4 orderings, every ordered pair, with/without buffer, '
+                            'float/complex/int')],
+        assumptions=['simulated MPI (vf/shim): Alltoall/Allgather data movement as in the MPI standard'],
+    ),
+    'C02': dict(
+        level='other',
+        contracts=[],
+        functions=[],
+        bounded=[dict(module='vf.rt.bounded_layout', prop='C02',
+                      bound='exhaustive 1<=p<=n<=24 (quick) / 80 (thorough) for the partition; Grid accessors and buffer sizes on '
+                            'production and seeded random process grids')],
+        assumptions=['simulated MPI (vf/shim)'],
+    ),
 }
